@@ -266,8 +266,154 @@ theorem parseMultilineBlock_indGA_of (ht : IndGA G (timerP (α := α))) : IndGA 
   unfold parseMultilineBlock
   indg_auto
 
+
+/-- `parse_block`, given the timer parser and the MODES flag local to `G` -/
+theorem parseBlock_indGA_of (ht : IndGA G (timerP (α := α))) (h7 : Gen.EXT_MODES ∈ G) (oldStyle : Bool) :
+    IndGA G (parseBlock (α := α) oldStyle) := by
+  have hm := parseMultilineBlock_indGA_of (α := α) h1 h2 h3 h4 h5 ht
+  unfold parseBlock
+  indg_auto
+
+/-- `parse_block` on a block that is not a `>> [key]: …` line does not need the MODES flag -/
+theorem parseBlock_indG_noModes (ht : IndGA G (timerP (α := α))) (oldStyle : Bool) (s : BP α) (hc : s.cur = 0)
+    (hm : metaKeyCore s.cs s.toks = true) : IndG G (parseBlock (α := α) oldStyle) s := by
+  have hmb := parseMultilineBlock_indGA_of (α := α) h1 h2 h3 h4 h5 ht
+  unfold parseBlock
+  refine IndG.bind (m := (do
+    match ← peekK with
+    | some .metaStart => withRecover do
+      match ← metadataEntry with
+      | some (.metadata key value) =>
+        let cs := (← get).cs
+        let modes ← hasExt Gen.EXT_MODES
+        if (isConfigKey cs key && modes) || oldStyle then return some (.metadata key value) else return none
+      | _ => return none
+    | some .eq => withRecover sectionP
+    | _ => return none : P α (Option (Ev α)))) ?_ ?_
+  · -- the single-line attempt is `Ind` (for every extension set) under `metaKeyCore`
+    apply IndG.of_ind
+    refine Ind.bindRO peekK_indA rfl ?_
+    intro k
+    split
+    · apply Ind.withRecover
+      refine Ind.bindS' (metadataEntry_indA.all s) (Q := fun r _ => r = (metadataEntry s).1) rfl ?_
+      intro r s1 ht1 hcs hr
+      split
+      · rename_i key value
+        have hkey := metadataEntry_key s hc key value hr.symm
+        have hnc : isConfigKey s1.cs key = false := by
+          unfold metaKeyCore at hm
+          rw [hkey] at hm
+          rw [hcs]
+          simpa using hm
+        refine Ind.getBind (fun _ => rfl) ?_
+        dsimp only
+        refine Ind.hasExtBind ?_ ?_
+        · intro b e
+          simp only [hnc, Bool.false_and]
+        · refine (?_ : IndA _).all _
+          ind_auto
+      · exact Ind.pure _ _
+    · exact Ind.withRecover (sectionP_indA.all s)
+    · exact Ind.pure _ _
+  · split
+    · exact (IndGA.of_indA (pushEv_indA _)).all _
+    · exact hmb.all _
+
 end comp
 
+
+theorem runBlockBody_indG (oldStyle : Bool) (s : BP α) (hc : s.cur = 0)
+    (hpb : ∀ s1 : BP α, s1.cur = 0 → s1.toks = s.toks → s1.cs = s.cs → IndG G (parseBlock (α := α) oldStyle) s1) :
+    IndG G (runBlockBody (α := α) oldStyle s.toks) s := by
+  unfold runBlockBody
+  have hp : IndA (if s.toks.isEmpty then panicWith "BlockParser::new: empty tokens" else pure () : P α Unit) := by
+    ind_auto
+  have hcur : ((if s.toks.isEmpty then panicWith "BlockParser::new: empty tokens" else pure () : P α Unit) s).2.cur = s.cur := by
+    split
+    · exact panicWith_cur _ s
+    · rfl
+  refine IndG.bind (IndG.of_ind (hp.all s)) ?_
+  refine IndG.bind (hpb _ (by rw [hcur, hc]) (hp.all s).toks (hp.all s).cs) ?_
+  refine (IndGA.of_indA (?_ : IndA _)).all _
+  ind_auto
+
+theorem runBlock_of_indG (cs : CharSpec) (e₁ e₂ : Ext) (oldStyle : Bool) (block : List Tok)
+    (evs : Array (Ev α)) (p : Option String) (ha : AgreeOn G e₁ e₂)
+    (hi : IndG G (runBlockBody (α := α) oldStyle block) ⟨block, 0, e₁, cs, evs, p⟩) :
+    runBlock cs e₁ oldStyle block evs p = runBlock cs e₂ oldStyle block evs p := by
+  rw [runBlock_eq, runBlock_eq]
+  have := hi.ext e₂ ha
+  have e0 : (⟨block, 0, e₁, cs, evs, p⟩ : BP α).withExt e₂ = ⟨block, 0, e₂, cs, evs, p⟩ := rfl
+  rw [e0] at this
+  rw [this]
+  rfl
+
 end fns
+
+/-! ### the theorems -/
+
+/-- the seven flags the parser reads (INLINE_QUANTITIES is read by the analysis only) -/
+def parserFlags : List Nat := [Gen.EXT_COMPONENT_MODIFIERS, Gen.EXT_INTERMEDIATE_PREPARATIONS,
+  Gen.EXT_COMPONENT_ALIAS, Gen.EXT_RANGE_VALUES, Gen.EXT_ADVANCED_UNITS, Gen.EXT_TIMER_REQUIRES_TIME, Gen.EXT_MODES]
+
+/-- the same without MODES -/
+def parserFlagsNoModes : List Nat := [Gen.EXT_COMPONENT_MODIFIERS, Gen.EXT_INTERMEDIATE_PREPARATIONS,
+  Gen.EXT_COMPONENT_ALIAS, Gen.EXT_RANGE_VALUES, Gen.EXT_ADVANCED_UNITS, Gen.EXT_TIMER_REQUIRES_TIME]
+
+/-- the parser depends on the extension set only through its seven flags: every block, any events before -/
+theorem runBlock_flags_only (cs : CharSpec) (e₁ e₂ : Ext) (oldStyle : Bool) (block : List Tok)
+    (evs : Array (Ev α)) (p : Option String) (ha : AgreeOn parserFlags e₁ e₂) :
+    runBlock cs e₁ oldStyle block evs p = runBlock cs e₂ oldStyle block evs p := by
+  have ht : IndGA parserFlags (timerP (α := α)) :=
+    timerP_indGA (by decide) (by decide) (by decide) (by decide) (by decide) (by decide)
+  have hpb := parseBlock_indGA_of (α := α) (G := parserFlags) (by decide) (by decide) (by decide) (by decide)
+    (by decide) ht (by decide) oldStyle
+  exact runBlock_of_indG cs e₁ e₂ oldStyle block evs p ha
+    (runBlockBody_indG oldStyle ⟨block, 0, e₁, cs, evs, p⟩ rfl (fun s1 _ _ _ => hpb.all s1))
+
+/-- MODES is local to `>> [key]` lines: on any other block two extension sets that agree on the
+    other six parser flags give the same events, whatever else the block contains -/
+theorem runBlock_modes_local (cs : CharSpec) (e₁ e₂ : Ext) (oldStyle : Bool) (block : List Tok)
+    (evs : Array (Ev α)) (p : Option String) (ha : AgreeOn parserFlagsNoModes e₁ e₂)
+    (hm : metaKeyCore cs block = true) :
+    runBlock cs e₁ oldStyle block evs p = runBlock cs e₂ oldStyle block evs p := by
+  have ht : IndGA parserFlagsNoModes (timerP (α := α)) :=
+    timerP_indGA (by decide) (by decide) (by decide) (by decide) (by decide) (by decide)
+  refine runBlock_of_indG cs e₁ e₂ oldStyle block evs p ha
+    (runBlockBody_indG oldStyle ⟨block, 0, e₁, cs, evs, p⟩ rfl (fun s1 hc1 ht1 hcs1 => ?_))
+  exact parseBlock_indG_noModes (α := α) (G := parserFlagsNoModes) (by decide) (by decide) (by decide) (by decide)
+    (by decide) ht oldStyle s1 hc1 (by rw [hcs1, ht1]; exact hm)
+
+/-- every block of the input satisfies `P` -/
+def AllBlocksOf (cs : CharSpec) (input : List Char) (P : List Tok → Bool) : Bool :=
+  (allBlocks ((inputTokens cs input).length + 1) (inputTokens cs input)).all P
+
+theorem foldl_runBlock_congr (cs : CharSpec) (e₁ e₂ : Ext) (oldStyle : Bool) (bs : List (List Tok))
+    (h : ∀ b ∈ bs, ∀ evs p, runBlock (α := α) cs e₁ oldStyle b evs p = runBlock cs e₂ oldStyle b evs p)
+    (acc : Array (Ev α) × Option String) :
+    bs.foldl (fun acc b => runBlock cs e₁ oldStyle b acc.1 acc.2) acc =
+    bs.foldl (fun acc b => runBlock cs e₂ oldStyle b acc.1 acc.2) acc := by
+  induction bs generalizing acc with
+  | nil => rfl
+  | cons b bs ih =>
+    simp only [List.foldl_cons]
+    rw [h b (by simp) acc.1 acc.2]
+    exact ih (fun b' hb' => h b' (by simp [hb'])) _
+
+theorem pullEvents_congr (cs : CharSpec) (e₁ e₂ : Ext) (input : List Char) (P : List Tok → Bool)
+    (hP : AllBlocksOf cs input P = true)
+    (h : ∀ oldStyle b, P b = true → ∀ evs p, runBlock (α := α) cs e₁ oldStyle b evs p = runBlock cs e₂ oldStyle b evs p) :
+    pullEvents (α := α) cs e₁ input = pullEvents cs e₂ input := by
+  unfold AllBlocksOf inputTokens at hP
+  unfold pullEvents
+  rw [List.all_eq_true] at hP
+  cases hfm : parseFrontmatter cs input with
+  | none =>
+    rw [hfm] at hP
+    exact foldl_runBlock_congr cs e₁ e₂ true _ (fun b hb => h true b (hP b hb)) _
+  | some fm =>
+    rw [hfm] at hP
+    exact foldl_runBlock_congr cs e₁ e₂ false _ (fun b hb => h false b (hP b hb)) _
 
 end Cook
